@@ -170,7 +170,7 @@ def replay_case(r):
     if r['name'].startswith('programme.'): return dict(programme=True, model=m, name=r['name'])
     if r['name'].startswith('step0.'):
         p = r['name'].split('.')
-        c = dict(func=('ideal' if p[1] == 'ideal' else 'non_ideal') + '_isothermal_process', mode=p[2], curves='many' if 'many-curve' in p else 'one', initial='initial' in p, sanitize=True)
+        c = dict(func=('ideal' if p[1] == 'ideal' else 'non_ideal') + '_isothermal_process', mode=p[2], curves='many' if 'many-curve' in p else 'one', initial='initial' in p, program='program' in p, sanitize=True)
         for k in ('A', 'm0', 'T0', 'x0', 'dt', 'Tp', 'pp'):
             if isinstance(m.get(k), (int, float)): c[k] = m[k]
         return c
